@@ -152,7 +152,7 @@ def new_line(cal):
 
 
 def generate(rng, tier):
-    ncal, ndays = (40, 120) if tier == 'quick' else (150, 300)
+    ncal, ndays = (80, 120) if tier == 'quick' else (400, 400)
     # Gregorian self-test of the model
     lines = ['(cal ymd %d)' % n for n in [TMIN, TMAX, D(2000, 2, 29).toordinal(), D(2100, 2, 28).toordinal(), D(2100, 3, 1).toordinal()]]
     lines += ['(cal ymd %d)' % rng.randrange(TMIN, TMAX + 1) for _ in range(300 if tier == 'quick' else 20000)]
